@@ -151,3 +151,76 @@ def wide_cases(rng, ntab, per_table=8, back=True, exact=True, budget=0, tag="w",
         cases.append(common.Case("%s%d" % (tag, i), setup, ops, {"table": tn, "kind": "wide", "text": w.text,
                                                                   "features": sorted(w.features)}))
     return cases
+
+
+# ---------------------------------------------------------------------------------------------
+# whole calls computed by the model alone (LouModel/Engine.lean: driver model + main-pass model F0 + stage models):
+# composite generated tables (translation rules of F0 between correct and pass2-4 stages of the literal fragment),
+# all argument combinations, capacities from 0 up; nothing is taken from a trace.
+
+def composite_cases(rng, ntab, per_table=8, tag="wc", argmasks=None, modes_f=(4, 4, 0, 4 | 128), modes_b=(4, 4, 4 | 128)):
+    from . import gen_table as G
+    cases = []
+    for i in range(ntab):
+        t = G.gen_table(rng, "composite" if i % 4 else "f0", per_stage=(0, 2), biased=(i % 2 == 0))
+        tn = "%s%d.ctb" % (tag, i)
+        ops = ["DUMP %s" % tn]
+        for _ in range(per_table):
+            u = [c for c in (G.rand_text_rules(rng, t, 10) if rng.random() < 0.5 else G.rand_text(rng, t, 10, undefined=0.04)) if c]
+            n = len(u)
+            am = rng.choice(argmasks or [0, 12, 28, 28, 20, 24, 4, 8, 29, 30, 31])
+            if n == 0:
+                am &= ~16
+            cap = rng.choice([n, n + 1, 2 * n + 2, 40, 3, 1, 0, max(0, n - 1)])
+            cur = str(rng.randint(0, n - 1)) if am & 16 else "-"
+            tf = common.wide([0] * n) if am & 1 else "-"
+            sp = common.hexbytes(bytes(rng.choice(b"*012 ") for _ in range(n + 1))) if am & 2 else "-"
+            ops.append("FWD %s %d %d %s %d %s %s %s" % (tn, rng.choice(modes_f), cap, cur, am, common.wide(u), tf, sp))
+            c = [x for x in G.rand_cells(rng, t, 10, undefined=0.04)]
+            n = len(c)
+            amb = am & ~3            # (typeform/spacing are output arrays in back-translation; covered elsewhere)
+            if n == 0:
+                amb &= ~16
+            cur = str(rng.randint(0, n - 1)) if amb & 16 else "-"
+            cap = rng.choice([n, n + 1, 2 * n + 2, 40, 3, 1, 0])
+            ops.append("BWD %s %d %d %s %d %s - -" % (tn, rng.choice(modes_b), cap, cur, amb, common.wide(c)))
+        cases.append(common.Case("%s%d" % (tag, i), ["HOOK trace 1", "HOOK budget 400000", "TBL %s %s" % (tn, common.hexbytes(t.text()))], ops,
+                                 {"tn": tn, "text": t.text(), "whole": True}))
+    return cases
+
+
+def compare_whole(calls, dist=None):
+    """for the calls of composite_cases (after run_and_trace): ask the model for the whole call and compare.
+    Returns the list of disagreements (strings)."""
+    lines, tags = [], []
+    loaded = set()
+    for k in calls:
+        c = k.case
+        if not c.meta.get("whole") or k.R is None or "ti" not in k.R or c.fault or not c.out or c.out[0].startswith("T null"):
+            continue
+        if c.id not in loaded:
+            loaded.add(c.id)
+            lines.append("LOADTABLE %s %s" % (c.meta["tn"], c.out[0].rsplit(" e=", 1)[0])); tags.append(None)
+        t_ = k.op.split(" ")
+        lines.append(" ".join(["MCALL", "B" if t_[0] == "BWD" else "F", c.meta["tn"], t_[2], t_[3], t_[4], str(int(t_[5]) & 31),
+                               t_[6], t_[7] if (int(t_[5]) & 1) else "-", k.R.get("disp", ".")]))
+        tags.append(k)
+    out = common.run_model(lines, timeout=900) if lines else []
+    bad = []
+    d = dist if dist is not None else {}
+    for k, m in zip(tags, out):
+        if k is None:
+            continue
+        if m.startswith("UNSUPPORTED") or m == "BADOP":
+            d["whole_unsupported"] = d.get("whole_unsupported", 0) + 1
+            continue
+        d["whole_calls_compared"] = d.get("whole_calls_compared", 0) + 1
+        if len(k.R["passes"]) > 1:
+            d["whole_multistage"] = d.get("whole_multistage", 0) + 1
+        if k.R["ret"] and k.R["inlen"] < len(common.unwide(k.op.split(" ")[6])):
+            d["whole_truncated"] = d.get("whole_truncated", 0) + 1
+        ok, detail, _e, _n, _f = trace.compare(k.op, k.R, m)
+        k.whole_ok = ok
+        if ok is False:
+            bad.append("whole call %s\n%s\n%s" % (k.op[:200], detail[:1500], k.case.meta["text"][:800]))
+    return bad
